@@ -875,16 +875,20 @@ fn do_multi(r: &Req) -> String {
             let mut allocs: Vec<_> = (0..n)
                 .map(|i| SendAlloc::new(Track::new(i as u32, &log), UnionHasher::Uninit))
                 .collect();
-            let res = CompressMultiSlice(
-                &params,
-                &input[..],
-                &mut ob[..],
-                &mut allocs[..],
-                &mut brotli::enc::multithreading::MultiThreadedSpawner::default(),
-            );
+            // a panic inside the call is an outcome, but the allocator log up to it still counts
+            let res = std::panic::catch_unwind(AssertUnwindSafe(|| {
+                CompressMultiSlice(
+                    &params,
+                    &input[..],
+                    &mut ob[..],
+                    &mut allocs[..],
+                    &mut brotli::enc::multithreading::MultiThreadedSpawner::default(),
+                )
+            }));
             res_s = match res {
-                Ok(s) => format!("ok{}", s),
-                Err(e) => format!("err:{:?}", e).replace(' ', "").replace('|', "/"),
+                Ok(Ok(s)) => format!("ok{}", s),
+                Ok(Err(e)) => format!("err:{:?}", e).replace(' ', "").replace('|', "/"),
+                Err(e) => panic_msg(e).replace(' ', "_").replace('|', "/").replace(';', "_"),
             };
             for (i, a) in allocs.into_iter().enumerate() {
                 let (al, _h) = a.unwrap_or(Track::new(99, &log), UnionHasher::Uninit);
@@ -1270,8 +1274,14 @@ fn do_ffioneshot(r: &Req) -> String {
     )
 }
 
+static PANICS: std::sync::atomic::AtomicUsize = std::sync::atomic::AtomicUsize::new(0);
+
 fn main() {
-    quiet_panics();
+    // panics are counted (also those the C ABI catches itself, and those of worker threads): a
+    // scenario in which the library panicked is reported as such, whatever it returned
+    std::panic::set_hook(Box::new(|_| {
+        PANICS.fetch_add(1, std::sync::atomic::Ordering::SeqCst);
+    }));
     let stdin = io::stdin();
     use std::io::BufRead;
     for line in stdin.lock().lines() {
@@ -1282,6 +1292,7 @@ fn main() {
         }
         let req = Req::parse(&toks[1..]);
         let cmd = toks[0].to_string();
+        let panics_before = PANICS.load(std::sync::atomic::Ordering::SeqCst);
         let ans = match guarded(AssertUnwindSafe(|| match cmd.as_str() {
             "raw" => do_raw(&req),
             "writer" => do_writer(&req),
@@ -1296,6 +1307,12 @@ fn main() {
         })) {
             Ok(s) => s,
             Err(e) => e,
+        };
+        let np = PANICS.load(std::sync::atomic::Ordering::SeqCst) - panics_before;
+        let ans = if np > 0 && !ans.starts_with("PANIC") {
+            format!("PANIC(inside the library, {} caught on the way) {}", np, ans)
+        } else {
+            ans
         };
         // answers go through the process-wide stdout handle so that anything the library
         // prints itself stays in order with them
